@@ -335,6 +335,10 @@ impl RefState {
                 if next.coins.contains_key(&m) {
                     return rej("faucet-duplicate", "");
                 }
+                // within one block every faucet is listed once - also the grandfathered mainnet one, which leaves no marker
+                if next.block_txs.contains_key(&tx.hash_nosigs()) {
+                    return rej("faucet-duplicate", "already in this block");
+                }
                 // every accepted faucet is remembered (the statement: at most once on any network other than mainnet);
                 // the one grandfathered transaction on mainnet is the exception the statement itself makes
                 if !(self.network == NetID::Mainnet && is_grandfathered(tx)) {
